@@ -952,6 +952,7 @@ fn c15(rep: &mut Report, tier: Tier) {
     c15_interrupted(rep);
     c15_scalars(rep);
     c15_twins(rep);
+    c15_reordered(rep);
     if tier == Tier::Thorough {
         c15_universe(rep, tier, &[RV::num("0"), RV::num("1.0"), RV::Null, RV::str("a")], &["a", "b", "c"], 4, "rich");
     }
@@ -1156,6 +1157,73 @@ fn c15_twins(rep: &mut Report) {
         t.nontrivial(&("twins", i));
     });
     rep.bounds["permutation_twins_under_a_duplicated_key"] = json!({"value_universe": u.len(), "objects": count, "ordered_pairs": count * count});
+    rep.absorb(t);
+}
+
+/// C15 after `canonicalize()` / `sort()`: an object whose entries were reordered in place (keys
+/// on which byte order and UTF-16 order differ, so that the two operations really move entries)
+/// is unordered-equal to itself, to its original and to every permutation, in both directions.
+fn c15_reordered(rep: &mut Report) {
+    use json_syntax::object::{Entry, Key};
+    use json_syntax::Object;
+    let keys = ["\u{e000}", "\u{10000}", "a", "\u{ffff}b", "\u{1d11e}"];
+    let mut seqs: Vec<Vec<usize>> = vec![vec![]];
+    let mut frontier = seqs.clone();
+    for _ in 0..3 {
+        let mut next = Vec::new();
+        for q in &frontier {
+            for k in 0..keys.len() {
+                let mut q2 = q.clone();
+                q2.push(k);
+                next.push(q2);
+            }
+        }
+        seqs.extend(next.iter().cloned());
+        frontier = next;
+    }
+    let mut t = Tally::new();
+    for q in &seqs {
+        let build = || Object::from_vec(q.iter().enumerate().map(|(i, &k)| Entry::new(Key::from(keys[k]), Value::from(i as u32))).collect());
+        for op in 0..3u8 {
+            t.evals += 1;
+            let case = json!({"kind": "unordered-reordered", "keys": q.iter().map(|&k| keys[k]).collect::<Vec<_>>(), "op": op});
+            let r = explore::guard(|| {
+                let original = build();
+                let mut moved = build();
+                match op {
+                    0 => moved.canonicalize(),
+                    1 => moved.sort(),
+                    _ => {
+                        moved.sort();
+                        moved.canonicalize();
+                    }
+                }
+                let reversed = Object::from_vec(original.entries().iter().rev().cloned().collect());
+                let mut bad = Vec::new();
+                for (name, x, y) in [("itself", &moved, &moved), ("its original", &moved, &original), ("the reversed original", &moved, &reversed)] {
+                    if !x.unordered_eq(y) || !y.unordered_eq(x) {
+                        bad.push(format!("the reordered object against {name}: unordered_eq = {} / {}", x.unordered_eq(y), y.unordered_eq(x)));
+                    }
+                }
+                let (vm, vo) = (Value::Object(moved), Value::Object(original));
+                if !vm.unordered_eq(&vo) || !vo.unordered_eq(&vm) || !(vm.as_unordered() == vo.as_unordered()) {
+                    bad.push("wrapped in Value: unordered_eq / as_unordered() == is false".to_string());
+                }
+                bad
+            });
+            match r {
+                Ok(bad) => {
+                    for b in bad {
+                        t.violation("", format!("after {} on an object with the keys {:?}: {b}", ["canonicalize()", "sort()", "sort() and canonicalize()"][op as usize], q.iter().map(|&k| keys[k]).collect::<Vec<_>>()), case.clone());
+                    }
+                }
+                Err(p) => t.violation("", format!("panicked: {p}"), case),
+            }
+        }
+        t.nontrivial(&("reordered", q.clone()));
+    }
+    t.outcome("reordered in place, then compared");
+    rep.bounds["reordered_in_place"] = json!({"key_sequences": seqs.len(), "operations": ["canonicalize", "sort", "sort + canonicalize"]});
     rep.absorb(t);
 }
 
